@@ -21,40 +21,28 @@ Theorem C06_prefix : forall lazy c0 t0 h tr k,
 Proof. exact crash_prefix. Qed.
 Print Assumptions C06_prefix.
 
-(* When no call is in flight the counter equals the size of the open transaction (every
-   statement, deletions included, is counted by the conditional_commit that follows it)
-   and at most 50 writes are at risk.  PARTIAL: for histories in which no bulk insert
-   failed after its first row ([Forall counted h]); see C06_bounded_loss_refuted. *)
-Theorem C06_bounded_loss_partial : forall lazy c0 t0 h tr,
-  Forall counted h -> map fst tr = expand_all h ->
+(* When no call is in flight every write of the open transaction has been counted by the
+   conditional_commit that follows it (deletions included; a bulk insert that failed
+   part-way counts all its rows, so the counter can exceed the size of the transaction but
+   never fall short of it), and the counter is at most 50: at most 50 writes are at risk. *)
+Theorem C06_bounded_loss : forall lazy c0 t0 h tr,
+  map fst tr = expand_all h ->
   let s := run lazy (init c0 t0) tr in
-  n_unc s = Z.of_nat (length (pending s)) /\ (length (pending s) <= 50)%nat /\
+  Z.of_nat (length (pending s)) <= n_unc s /\ n_unc s <= 50 /\ (length (pending s) <= 50)%nat /\
   recover s ++ pending s = c0 ++ writes_of (expand_all h).
 Proof. exact bounded_loss_quiescent. Qed.
-Print Assumptions C06_bounded_loss_partial.
+Print Assumptions C06_bounded_loss.
 
 (* A crash inside a call [o] (after any [k] of its micro-steps): at most 50 writes of the
    completed calls are missing; counting the call in flight, at most 50 + its own writes
    (an insert_many of m rows can have 50 + m writes pending just before it counts them). *)
-Theorem C06_bounded_loss_in_flight_partial : forall lazy c0 t0 h o tr tro k,
-  Forall counted h -> map fst tr = expand_all h -> map fst tro = expand o ->
+Theorem C06_bounded_loss_in_flight : forall lazy c0 t0 h o tr tro k,
+  map fst tr = expand_all h -> map fst tro = expand o ->
   let s := run lazy (init c0 t0) (tr ++ firstn k tro) in
   (length c0 + length (writes_of (expand_all h)) <= length (recover s) + 50)%nat /\
   (length (pending s) <= 50 + length (writes_of (expand o)))%nat.
 Proof. exact bounded_loss_any_cut. Qed.
-Print Assumptions C06_bounded_loss_in_flight_partial.
-
-(* FINDING.  Without [Forall counted h] the bound does not hold of the code as it is: an
-   insert_many whose executemany raises part-way (a row whose start/end overflows SQLite's
-   64-bit INTEGER, after rows that were fine) leaves the earlier rows in the open
-   transaction and never reaches conditional_commit, so they are at risk and uncounted;
-   repeating it accumulates without bound (62 pending, counter 0, nothing committed). *)
-Theorem C06_bounded_loss_refuted :
-  exists h tr, map fst tr = expand_all h /\
-    let s := run true (init [] 0) tr in
-    (length (pending s) > 50)%nat /\ n_unc s = 0 /\ recover s = [].
-Proof. exact bounded_loss_refuted. Qed.
-Print Assumptions C06_bounded_loss_refuted.
+Print Assumptions C06_bounded_loss_in_flight.
 
 (* create_bucket / update_bucket / delete_bucket: from any state, when the call returns
    nothing is pending — its own writes and everything buffered before are durable. *)
@@ -113,11 +101,29 @@ Example C06_nonvacuous :
   pending (st (ins 50%nat ++ [InsertMany [] (map Z.of_nat (seq 200%nat 60%nat))])) = [].
 Proof. vm_compute. repeat split; reflexivity. Qed.
 
-(* Sensitivity: with the pre-repair script of delete (the statement alone, no
-   conditional_commit — what tie B reads off the source) the bound fails: 100 deletions
-   leave 100 writes pending and the counter at 0. *)
-Example C06_uncounted_delete_breaks_bound :
-  let tr := map (fun i => (Exec (Z.of_nat i), mkClk 0 0 0)) (seq 0%nat 100%nat) in
-  let s := run true (init [] 0) tr in
+(* A bulk insert that fails part-way is counted in full: 31 rows went through, 32 are
+   counted; two of them (64 > 50) flush. *)
+Example C06_failed_bulk_is_counted :
+  let rows n := map Z.of_nat (seq n 31%nat) in
+  let st h := run true (init [] 0) (timed0 (expand_all h)) in
+  (length (pending (st [InsertManyFailed [] (rows 0%nat) 1])), n_unc (st [InsertManyFailed [] (rows 0%nat) 1]))
+    = (31%nat, 32) /\
+  pending (st [InsertManyFailed [] (rows 0%nat) 1; InsertManyFailed [] (rows 100%nat) 1]) = [].
+Proof. vm_compute. split; reflexivity. Qed.
+
+(* Sensitivity (scripts the code had before two of its repairs, Proofs/CommitProofs.v
+   [pre_4039c3d_delete], [pre_ec39c3d_insert_many_failed]; what tie B reads off the source
+   if a repair is reverted).  delete without conditional_commit: 100 deletions leave 100
+   writes pending and the counter at 0.  insert_many without try/finally: two bulk inserts
+   that raise on their 32nd row leave 62 writes pending, counter 0, nothing committed. *)
+Example C06_pre_fix_delete_breaks_bound :
+  let s := run true (init [] 0) (timed0 (flat_map pre_4039c3d_delete (map Z.of_nat (seq 0 100)))) in
   (length (pending s), n_unc s, length (recover s)) = (100%nat, 0, 0%nat).
-Proof. vm_compute. reflexivity. Qed.
+Proof. exact pre_fix_delete_breaks_bound. Qed.
+
+Example C06_pre_fix_failed_bulk_breaks_bound :
+  let tr := timed0 (pre_ec39c3d_insert_many_failed [] (map Z.of_nat (seq 0 31)) ++
+                    pre_ec39c3d_insert_many_failed [] (map Z.of_nat (seq 100 31))) in
+  let s := run true (init [] 0) tr in
+  (length (pending s) > 50)%nat /\ n_unc s = 0 /\ recover s = [].
+Proof. exact pre_fix_failed_bulk_breaks_bound. Qed.
